@@ -238,6 +238,13 @@ pub fn run_scenario(sc: &Scenario, keep_log: bool) -> Outcome {
         if ss.switches_in_critical_section > 0 {
             out.stats.probe("context_switch_in_critical_section");
         }
+        if let Some(pt) = sc.schedule.as_ref().and_then(|s| s.preempt_at.first().copied()) {
+            if ss.decisions > pt {
+                out.stats.probe("single_preemption_applied");
+            } else {
+                out.stats.probe("single_preemption_point_beyond_last_decision");
+            }
+        }
         out.schedule_trace = sched.trace();
         out.sched = Some(ss);
     }
